@@ -141,7 +141,11 @@ def base_pars(i, seed, style="random"):
     pars = dict(i.parameters.defaults)
     if style == "random":
         with compare.push_seed(int(seed) % (2**31)):
-            p = compare.randomize_pars(i, dict(pars))
+            try:
+                p = compare.randomize_pars(i, dict(pars))
+            except TypeError:
+                # composite infos whose parts lack a random() function: per-parameter generator only
+                p = dict((k, compare._randomize_one(i, k, v)) for k, v in sorted(pars.items()))
             compare.constrain_pars(i, p)
         names = {q.name for q in i.parameters.call_parameters}
         for k, v in p.items():
